@@ -35,9 +35,15 @@ pub proof fn verif_canary_must_fail()
 '''
 
 
-def census(text):
+def census(text, metas=()):
     """Mechanical scan for every trusted item in the generated file."""
     items = []
+    imported = {}
+    for m in metas:
+        if m.get('mode') == 'contract_only':
+            imported[m.get('fn')] = 'contract of %s imported (proved in another group)' % m['id']
+        elif m.get('mode') == 'assumed':
+            imported[m.get('fn')] = 'ASSUMED contract on purl function %s (body is a single dependency call)' % m['id']
     lines = text.split('\n')
     for i, l in enumerate(lines):
         s = l.strip()
@@ -57,7 +63,10 @@ def census(text):
             for j in range(i, min(i + 6, len(lines))):
                 m = re.search(r'\bfn\s+(\w+)', lines[j])
                 if m:
-                    items.append('external_body: %s' % m.group(1))
+                    if m.group(1) in imported:
+                        items.append(imported[m.group(1)])
+                    else:
+                        items.append('external_body: %s' % m.group(1))
                     break
         if 'verifier::external' in s and 'external_body' not in s:
             items.append('external: %s' % s[:100])
@@ -87,7 +96,7 @@ def run_group(name, outdir, rlimit=None, canary_calls=None, timeout=600):
     res['units'] = metas
     res['rewrites'] = len(log)
     res['generated'] = path
-    res['census'] = census(text)
+    res['census'] = census(text, metas)
     cmd = ['verus', os.path.basename(path), '--output-json', '--time', '--error-format=json', '--multiple-errors', '4']
     rl = rlimit or g.get('rlimit')
     if rl:
